@@ -22,6 +22,13 @@ type Mutation { rename(id: ID!, newName: String!): User }
 """
 
 
+SCHEMA_KEYWORDS = """
+type Party { name: String }
+type Transfer { id: ID! from: String class: String camelCase: Int import(global: Int): Party }
+type Query { transfer(id: ID!): Transfer }
+"""
+
+
 def _run(pkg, fields, name="Op", mutation=False):
     sent = []
 
@@ -88,6 +95,18 @@ def run_cases():
         case("same-argument-list-different-nullability-1", lambda: [Q.find_user(id="1").fields(U.id), Q.user(id="2").fields(U.id)], ["1", "2"])
         case("same-argument-list-different-nullability-2", lambda: [Q.find_post(key="1").fields(P.id), Q.post().fields(P.id)], ["1"])
 
+        # falsy argument values are values: declared and transmitted (only None means "not given")
+        case("falsy-int-argument", lambda: [Q.users(ids=["1"], first=0).fields(U.id)], [["1"], 0])
+        case("empty-list-argument", lambda: [Q.users(ids=[]).fields(U.id)], [[]])
+        case("empty-string-arguments", lambda: [Q.me().fields(U.posts(order_by="").fields(P.id), U.meta_field(key=""))], ["", ""])
+        case("falsy-arguments-in-mutation", lambda: [cm.Mutation.rename(id="", new_name="").fields(U.id)], ["", ""], mutation=True)
+
+        def same_signature_different_selection():
+            _run(pkg, [Q.users(ids=["1"]).fields(U.id)], name="Same")
+            return _run(pkg, [Q.users(ids=["2"]).fields(U.user_name)], name="Same")
+        case("history-free-same-name-and-variable-signature", None, [["2"]], payload_fn=same_signature_different_selection,
+             extra=lambda p: [] if "userName" in p["query"] and " id" not in p["query"].replace("ids", "") else ["selection of an earlier operation reused: " + p["query"].replace("\n", " ")])
+
         def reused():
             bio = U.meta_field(key="bio").alias("b")
             _run(pkg, [Q.me().fields(bio)])
@@ -103,6 +122,34 @@ def run_cases():
     except Exception as e:   # noqa
         rep["outcome"]["generation"] = f"{type(e).__name__}: {str(e)[:300]}"
         rep["cases"].append("generation")
+    finally:
+        if g is not None:
+            g.cleanup()
+    # snake-casing off: the Python attribute of a keyword-named field is escaped, the document keeps the GraphQL name
+    g = None
+    try:
+        g = generate_client(SCHEMA_KEYWORDS, None, enable_custom_operations=True, convert_to_snake_case=False)
+        pkg = g.module()
+        cf = g.module("custom_fields")
+        cq = g.module("custom_queries")
+        schema = G.build_schema(SCHEMA_KEYWORDS)
+        T = cf.TransferFields
+
+        def kw_case(name, build, expect_values):
+            try:
+                payload = _run(pkg, build())
+                problems = _check_document(schema, payload, expect_values)
+            except Exception as e:   # noqa
+                problems = [f"{type(e).__name__}: {str(e)[:200]}"]
+            rep["outcome"][name] = problems or "ok"
+            if problems:
+                rep["cases"].append(name)
+        kw_case("no-snake-case:keyword-named-scalar-fields", lambda: [cq.Query.transfer(id="1").fields(getattr(T, "from_"), getattr(T, "class_"), T.camelCase)], ["1"])
+        kw_case("no-snake-case:keyword-named-object-field-and-argument",
+                lambda: [cq.Query.transfer(id="1").fields(getattr(T, "import_")(**{"global_": 0}).fields(cf.PartyFields.name))], ["1", 0])
+    except Exception as e:   # noqa
+        rep["outcome"]["generation-no-snake-case"] = f"{type(e).__name__}: {str(e)[:300]}"
+        rep["cases"].append("generation-no-snake-case")
     finally:
         if g is not None:
             g.cleanup()
